@@ -259,6 +259,15 @@ SilSet(ms, start, end) ==
   /\ chk' = {}
   /\ UNCHANGED <<now, cfg, ver, last, brk, fl, cancd>>
 
+\* POST /api/v2/silences with the id of an existing silence: its times are replaced (what is
+\* stored afterwards is read back from the API; the update rules themselves are C12's)
+SilUpdate(idx, start, end) ==
+  /\ idx + 1 \in 1..Len(sil)
+  /\ sil' = [sil EXCEPT ![idx + 1] = [@ EXCEPT !.start = start, !.end = end]]
+  /\ elig' = EligNext(now, ver, sil')
+  /\ chk' = {}
+  /\ UNCHANGED <<now, cfg, ver, last, brk, fl, cancd>>
+
 SilExpire(idx) ==
   /\ idx + 1 \in 1..Len(sil)
   /\ LET s == sil[idx + 1]
